@@ -65,7 +65,14 @@ MANIFEST = dict(
          'stream (one well-formed format of positive size on both sides), using the direction C11 does not state: whatever unpack '
          'returns for bytes fits the format. For the other views the premise is supported by '
          'C11\'s obligations over the generated records, formats, dedup keys, bit fields, entity template and visibility rows, '
-         'discharged here per view on every run (codec[<views>]:<name>); pakfile has none.',
+         'discharged here per view on every run (codec[<views>]:<name>); pakfile has none. '
+         'Round 5 (error paths): save_a models the rebuild loop of BSP.save with the except clause that puts the popped value back '
+         'when a writer raises (generated flag bsp_save_restores_on_abort, obligation aborted_save_puts_the_popped_view_back): the '
+         'clause matters only when the save raises (same flag, same result when it completes), and with it, after ANY history and a '
+         'save that may raise half-way, every view still denotes what the file held and unowned lumps are untouched '
+         '(c10_aborted_save_keeps_content), and any further looks followed by a save that completes are lossless with respect to the '
+         'original file (c10_retry_after_aborted_save_lossless); without it a closed history loses a lump on the second save (the pinned '
+         'tree before fix c8f05ec).',
     note='Assumed in the theorems (visible hypotheses): each lump writer inverts its reader on the file\'s lumps (codec_ok, '
          'wr_len_ok: property C11); decompress (compress d) = d (CPython lzma). The container theorem is about the model '
          'Fmt/BspContainer.v, tied to BSP.read/BSP.save by byte-exact correspondence on random containers (not by a translator of '
@@ -87,7 +94,9 @@ MANIFEST = dict(
          'mutating method calls, followed through BSP methods; changes made inside other classes\' methods are not seen) and '
          'the check pins the list; for (bmodels, ents) the graph hypotheses of the theorem and "nothing that can raise follows '
          'the first change" (a syntactic tail condition on the reader) are obligations, "the writer undoes it" is searched '
-         '(malformed input bmodel_ref, oracle); the texinfo/hammer_id '
+         '(malformed inputs bmodel_ref and seven PHYSCOLLIDE blocks the physics half of the reader rejects, oracle); '
+         'the translator reads only the shape of the handler around the writer call (bare / Exception / BaseException, store of the popped '
+         'name under the loop variable, re-raise, every use of the writer result inside the try); the texinfo/hammer_id '
          'fields the face readers set on the shared orig_faces objects are searched only. Not modelled, '
          'searched only: VitaminSource-only branches, '
          'zipfile. A save that raises because a writer looks at an unparsable view of a malformed file produces no '
@@ -417,6 +426,21 @@ def run_trial(subj: Subject, cycles: list[list[str]], work: Path, own: dict[str,
                 # is written (no file is produced, the property says nothing); the input file must be untouched.
                 if out.exists():
                     probs.append(('aborted-save-left-a-file', f'cycle {ci}: {type(e).__name__}: {e}'))
+                # ... and the caller carries on with the same object (nothing was modified): a later save either raises
+                # again, or writes a file that still holds the content of the original.  The view whose writer raised had
+                # its lumps cleared when it was looked at; if the aborted save forgot its parsed value the retry writes them empty.
+                retry = work / f't{ci}_retry.bsp'
+                retry.unlink(missing_ok=True)
+                try:
+                    with _quiet():
+                        b.save(os.fspath(retry))
+                except Exception as e2:      # noqa: BLE001
+                    if not subj.raises_like_unparsable(e2):
+                        probs.append(('save-raises', f'cycle {ci}: save after an aborted save: {type(e2).__name__}: {e2}'))
+                    return probs
+                for kind, detail in compare(subj, retry, own):
+                    probs.append(('lost-after-aborted-save:' + kind, f'cycle {ci}: the first save raised {type(e).__name__} (a writer looked at '
+                                  f'an unparsable view), the second save of the same object completed: {detail}'))
                 return probs
             return probs + [('save-raises', f'cycle {ci}: {type(e).__name__}: {e}')]
         if b._parsed_lumps:
@@ -481,6 +505,14 @@ BAD_VARIANTS: list[dict] = [
     dict(bad=('sprp_version',), compress_game=('sprp',)), dict(bad=('ents', 'dprp'), compress=('ENTITIES',), compress_game=('dprp',)),
     dict(bad=('overlays', 'sprp_size'), layout='v21', compress=('OVERLAYS',)), dict(bad=('texinfo', 'ents'), layout='l4d2'),
     dict(bad=('bmodel_ref',)),
+    # round 5: what is left behind when a reader that CHANGES OBJECTS OF ANOTHER VIEW raises half-way.  bmodels (takes the "model"
+    # keys out of the entities of ents): a PHYSCOLLIDE lump the container loads but the physics half of the reader rejects, for
+    # every way that half can raise (struct.error: no terminator / cut inside a header; ValueError: two definitions for one
+    # model; IndexError: block for a missing model; UnicodeDecodeError / KeyValError: keyvalue text).  faces / hdr_faces (set
+    # texinfo and hammer_id of the shared orig_faces objects): a face record naming a missing plane, in the middle of the array.
+    dict(bad=('phys_empty',)), dict(bad=('phys_noterm',), layout='v21'), dict(bad=('phys_cut',), compress=('PHYSCOLLIDE', 'MODELS')),
+    dict(bad=('phys_dup',)), dict(bad=('phys_model',), layout='l4d2'), dict(bad=('phys_kv',)), dict(bad=('phys_kvsyntax',), layout='chaos'),
+    dict(bad=('face_plane',)), dict(bad=('hdr_face_plane',), compress=('FACES_HDR',)),
 ]
 
 
@@ -683,7 +715,7 @@ Definition b2n (b : bool) : nat := if b then 1 else 0.
 Definition sim (g : graph) (ne bad : list nat) (accs : list nat) :=
   let s0 := mkS (fun l => if mem l ne then 1 else 0) (fun _ => None) in
   let s1 := run nat bool 0 (rdB bad) g bsp_shape accs s0 in
-  let r := save nat bool 0 (rdB bad) (wrB g) g bsp_shape s1 in
+  let r := save_a nat bool 0 (rdB bad) (wrB g) g bsp_shape bsp_save_restores_on_abort s1 in
   [map b2n (run_flags nat bool 0 (rdB bad) g bsp_shape accs s0)] ++ obs g ne s1 ++ [[b2n (fst r)]] ++ obs g ne (snd r).
 '''
     bad = []
@@ -1068,8 +1100,10 @@ def run(ck: Ck) -> None:
                '/ cubemap tables; LZMA blobs with foreign parameters, small dictionary field and trailing NUL; FACEIDS longer than '
                'the face array; the bundled map also with an adversarial texture-name table; histories: '
                'no access, every single view, every ordered pair on the default file, random subsets and orders, all views '
-               'forwards/backwards, 1-3 look/save cycles; 9 malformed inputs (unknown static-prop version, stray bytes in the prop '
-               'lump, unterminated entity, entity naming a missing brush model, texinfo naming a missing texdata, truncated detail props / overlays, also LZMA-compressed) '
+               'forwards/backwards, 1-3 look/save cycles; 18 malformed inputs (unknown static-prop version, stray bytes in the prop '
+               'lump, unterminated entity, entity naming a missing brush model, texinfo naming a missing texdata, truncated detail props / overlays, '
+               'PHYSCOLLIDE without terminator / cut inside a header / with two definitions for one model / a block for a missing model / '
+               'non-ASCII or unclosed keyvalue text, a face record naming a missing plane in FACES or FACES_HDR, also LZMA-compressed) '
                'whose failing views are looked at inside try/except before saving; random small containers for the container '
                'model; a case is non-trivial when at least one view is looked at; distinct by (input, access cycles)')
     ck.trusted.append('hand-written models SM/LazyLumps.v (tied by traced correspondence on every run, including looks that raise) '
@@ -1135,6 +1169,8 @@ def run(ck: Ck) -> None:
             'shape_ok_bsp_shape': 'shape_ok bsp_shape',
             'get_clears_raw_data_only_after_the_reader_has_finished': 'negb (sh_early_main bsp_shape) && negb (sh_early_extra bsp_shape)',
             'get_caches_every_parsed_value': 'negb bsp_get_parse_uncached',
+            # the model's look caches and clears nothing when the reader raises (getf: None => (false, snd r))
+            'get_caches_and_clears_nothing_when_the_reader_raises': 'negb bsp_get_stores_on_raising_path',
             'readers_never_store_lump_data': 'match bsp_reader_stores with nil => true | _ => false end',
             'save_pops_views_during_the_walk_of_the_rebuild_order': 'negb (sh_snapshot bsp_shape)',
             # hypothesis writers_can_look of c10_save_lossless (save completes): implied by wdeps being within rdeps
@@ -1159,6 +1195,13 @@ def run(ck: Ck) -> None:
             # changes themselves, the loops / tests around them and the final return (nothing that can still raise follows)
             'restored_mutations_happen_after_everything_that_can_raise':
                 f'forallb (fun p => negb (existsb ({pair_eqb} p) bsp_reader_elem_mutations_early)) {restored_coq}',
+            # what BSP.save leaves behind when a writer raises (theorem c10_aborted_save_keeps_content is about save_a true; without
+            # the except clause the popped view is dropped although its lumps were cleared: c10_aborted_save_drops_view_refuted)
+            'aborted_save_puts_the_popped_view_back': 'bsp_save_restores_on_abort',
+            # a loop that forgets the cached value only after the lumps were rebuilt equals the modelled pop-first loop only if no
+            # writer looks at its own view (it would see the cached value instead of the cleared lump)
+            'late_pop_only_where_no_writer_looks_at_its_own_view':
+                f'negb bsp_save_pops_late || forallb (fun i => negb (mem i (v_wdeps (decl bsp_graph i)))) (seq 0 ({n}))',
             'readers_only_read_the_views_they_look_at': 'forallb (fun u => Nat.eqb (snd u) 0) bsp_reader_uses',
             'writers_only_read_or_append_to_the_views_they_look_at': 'forallb (fun u => Nat.leb (snd u) 1) bsp_writer_uses',
         })
@@ -1212,7 +1255,7 @@ def run(ck: Ck) -> None:
     # ---------------------------------------------------------------------------- correspondence
     if built and side:
         corr_files = [default] + [s for o, s in synth_subjects if o in (dict(layout='v19'), dict(layout='chaos'), dict(aux='zero'))] + \
-            subjects[:1] + [s for o, s in bad_subjects if o in (BAD_VARIANTS[1], BAD_VARIANTS[3], BAD_VARIANTS[5])]
+            subjects[:1] + [s for o, s in bad_subjects if o in (BAD_VARIANTS[1], BAD_VARIANTS[3], BAD_VARIANTS[5], dict(bad=('phys_dup',)))]
         correspondence(ck, side, corr_files, work)
         # stage limits: 10 s / 10 s on a loaded machine; a save or read that never returns ends as a failed tie, not as a hung check
         for nm, fn, args in (('correspondence:container', container_check,
@@ -1367,6 +1410,17 @@ def run(ck: Ck) -> None:
         attempt(s, opts, [list(reversed(VIEWS))])
         for v in failing:
             attempt(s, opts, [[v]])
+        # a failing reader that changes objects of another view: the caller already holds that view / asks for it afterwards / the
+        # file saved after the failed look is read again and the changed view is looked at
+        # views that can be looked at but whose WRITER looks at a view that cannot: save raises half-way (tolerated), the caller
+        # carries on and saves again
+        for w in VIEWS:
+            if w not in failing and side and set(side['views'].get(w, {}).get('writer_views', ())) & set(failing):
+                attempt(s, opts, [[w]])
+        for a, b2 in REVIEWED_ELEMENT_MUTATIONS:
+            if a in failing and b2 not in failing:
+                attempt(s, opts, [[b2, a]])
+                attempt(s, opts, [[a, b2], [b2]])
         for i in range(ck.budget(3, 40)):
             cyc = [rng.sample(VIEWS, rng.choice([2, 3, 5, 9])) + [rng.choice(failing)] for _ in range(rng.choice([1, 1, 2]))]
             rng.shuffle(cyc[0])
@@ -1442,6 +1496,7 @@ def run(ck: Ck) -> None:
     if kinds & {'view-content-changed', 'cache-not-empty-after-save', 'raw-changed', 'save-raises', 'look-raises',
                 'failed-look-changed-lump', 'raw-changed-unparsable'}:
         for nm in ('shape_ok_bsp_shape', 'get_clears_raw_data_only_after_the_reader_has_finished', 'get_caches_every_parsed_value',
+                   'get_caches_and_clears_nothing_when_the_reader_raises',
                    'readers_never_store_lump_data',
                    'save_pops_views_during_the_walk_of_the_rebuild_order', 'writers_look_only_at_views_their_readers_look_at',
                    'readers_only_read_the_views_they_look_at', 'writers_only_read_or_append_to_the_views_they_look_at',
@@ -1455,6 +1510,8 @@ def run(ck: Ck) -> None:
                    'cleared_lumps_are_never_stored_conditionally'):
             if inst.get(nm) is False:
                 ck.explain('instance:' + nm)
+    if 'lost-after-aborted-save' in kinds and inst.get('aborted_save_puts_the_popped_view_back') is False:
+        ck.explain('instance:aborted_save_puts_the_popped_view_back')
     # a false codec premise is explained by a concrete look + save history that changes content, raises or is unstable
     if kinds & {'hangs', 'oracle-raises'}:
         ck.explain('correspondence:')
